@@ -184,4 +184,11 @@ theorem walWrite_safe (c : Cfg) (s : State) (h : Safe s) (v : View) (hv : replay
         exact ⟨v', by simpa [Option.toList] using hv', fun p hp => hk p (hp0 p hp) (hnt p hp)⟩
 
 
+/-- taking a Ready makes no promise (raft takes some back) -/
+theorem take_safe' {s : State} {rd : Ready} {t : List Stmt} (h : Safe s) :
+    Safe { s with rd := rd, todo := t, owed := s.owed.filter (fun p => !released rd p) } := by
+  intro k
+  obtain ⟨v, hv, hp⟩ := h k
+  exact ⟨v, hv, fun p hpm => hp p (List.mem_filter.mp hpm).1⟩
+
 end ReadyLoop
